@@ -222,8 +222,15 @@ def build(seed, kind, scope):
         v = sentinel(t, k[0])
         depth = r.choice([1, 2, 3, 4])
         sub = f'zset{tnm[t]}' if depth == 1 else f'zfw{depth}{tnm[t]}'
-        if r.random() < 0.3:
-            ops.append(f'{sub} ({l}), {lit(t, v)}')        # expression argument: aliases nothing
+        if r.random() < 0.4:
+            # expression arguments alias nothing: (x), x + 0, x * 1, "" + s$
+            if t == '$':
+                form = r.choice([f'({l})', f'{l} + ""', f'"" + {l}'])
+            else:
+                z = {'%': '0', '&': '0&', '!': '0!', '#': '0#'}[t]
+                o1 = {'%': '1', '&': '1&', '!': '1!', '#': '1#'}[t]
+                form = r.choice([f'({l})', f'{l} + {z}', f'{l} * {o1}', f'{z} + {l}', f'{l} - {z}'])
+            ops.append(f'{sub} {form}, {lit(t, v)}')
         else:
             ops.append(f'{sub} {l}, {lit(t, v)}')
             model[l] = v
